@@ -634,3 +634,95 @@ Example flat_record_first_breaks :
   let st := Flat 3 [(1, [97]); (2, [98])] in
   flat_ok st = true /\ flat_ok (fapply [AppendRec 3 [99]] st) = false.
 Proof. vm_compute. split; reflexivity. Qed.
+
+(* ---------- dbi.FlatfileMapping.remove / set (in place) ---------- *)
+Lemma without_none id recs : count_id id recs = 0%nat -> without id recs = recs.
+Proof.
+  unfold count_id, without. induction recs as [|r recs IH]; [reflexivity|].
+  cbn [filter]. destruct (N.eqb (fst r) id); cbn [negb length]; [discriminate|].
+  intro H. now rewrite IH.
+Qed.
+
+Lemma remove_first_none id recs : count_id id recs = 0%nat -> remove_first id recs = recs.
+Proof.
+  unfold count_id. induction recs as [|r recs IH]; [reflexivity|].
+  cbn [filter remove_first]. destruct (N.eqb (fst r) id); cbn [length]; [discriminate|].
+  intro H. now rewrite IH.
+Qed.
+
+Lemma remove_first_one id recs : count_id id recs = 1%nat -> remove_first id recs = without id recs.
+Proof.
+  unfold count_id, without. induction recs as [|r recs IH]; [discriminate|].
+  cbn [filter remove_first]. destruct (N.eqb (fst r) id) eqn:E; cbn [negb length].
+  - intro H. injection H as H. symmetry. now apply without_none.
+  - intro H. now rewrite IH.
+Qed.
+
+Lemma unique_count id recs : ids_unique recs = true -> (count_id id recs <= 1)%nat.
+Proof.
+  unfold count_id. induction recs as [|r recs IH]; [intros; cbn; lia|].
+  cbn [ids_unique filter]. intro H. apply andb_true_iff in H as [H1 H2].
+  destruct (N.eqb (fst r) id) eqn:E; [|now apply IH].
+  cbn [length]. apply N.eqb_eq in E. apply negb_true_iff in H1.
+  assert (Hz : length (filter (fun r0 : N * str => N.eqb (fst r0) id) recs) = 0%nat).
+  { destruct (filter (fun r0 : N * str => N.eqb (fst r0) id) recs) as [|x l] eqn:Ef; [reflexivity|].
+    assert (Hin : In x (filter (fun r0 : N * str => N.eqb (fst r0) id) recs)) by (rewrite Ef; now left).
+    apply filter_In in Hin as [Hin Hx]. exfalso.
+    assert (existsb (fun x0 : N * str => N.eqb (fst x0) (fst r)) recs = true).
+    { apply existsb_exists. exists x. split; [exact Hin|]. now rewrite E. }
+    congruence. }
+  lia.
+Qed.
+
+(* remove: with unique ids every death leaves the old or the new records *)
+Lemma flat_remove_old_or_new st id k :
+  ids_unique (fl_recs st) = true ->
+  let st' := fapply2 (firstn k (remove_effects st id)) st in
+  fl_recs st' = fl_recs st \/ fl_recs st' = removed_recs st id.
+Proof.
+  intro Hu. pose proof (unique_count id _ Hu) as Hc. unfold remove_effects, removed_recs.
+  destruct (count_id id (fl_recs st)) as [|[|n]] eqn:E; [| |lia].
+  - cbn [repeat]. replace (firstn k []) with (@nil feff2) by (now destruct k). left. reflexivity.
+  - cbn [repeat]. destruct k as [|k]; [left; reflexivity|].
+    cbn [firstn]. replace (firstn k []) with (@nil feff2) by (now destruct k).
+    right. cbn. now apply remove_first_one.
+Qed.
+
+(* set: old, or the record LOST (the dashed-out window), or new *)
+Lemma flat_set_old_lost_or_new st id s k :
+  ids_unique (fl_recs st) = true ->
+  let st' := fapply2 (firstn k (set_effects st id s)) st in
+  fl_recs st' = fl_recs st \/ fl_recs st' = without id (fl_recs st) \/ fl_recs st' = set_recs st id s.
+Proof.
+  intro Hu. pose proof (unique_count id _ Hu) as Hc. unfold set_effects, remove_effects, set_recs.
+  destruct (count_id id (fl_recs st)) as [|[|n]] eqn:E; [| |lia]; cbn [repeat app].
+  - destruct k as [|k]; [left; reflexivity|]. cbn [firstn].
+    replace (firstn k []) with (@nil feff2) by (now destruct k).
+    right. right. cbn. now rewrite without_none.
+  - destruct k as [|[|k]]; [left; reflexivity| |]; cbn [firstn].
+    + right. left. cbn. now apply remove_first_one.
+    + replace (firstn k []) with (@nil feff2) by (now destruct k).
+      right. right. cbn. now rewrite remove_first_one.
+Qed.
+
+(* on the domain "the id is not in the file" set is a pure append: old or new *)
+Lemma flat_set_on_domain st id s k :
+  count_id id (fl_recs st) = 0%nat ->
+  let st' := fapply2 (firstn k (set_effects st id s)) st in
+  fl_recs st' = fl_recs st \/ fl_recs st' = set_recs st id s.
+Proof.
+  intro E. unfold set_effects, remove_effects, set_recs. rewrite E. cbn [repeat app].
+  destruct k as [|k]; [left; reflexivity|]. cbn [firstn].
+  replace (firstn k []) with (@nil feff2) by (now destruct k).
+  right. cbn. now rewrite without_none.
+Qed.
+
+Lemma flat_set_refuted :
+  let st := Flat 3 [(1, [97]); (2, [98])] in
+  ids_unique (fl_recs st) = true /\ count_id 1 (fl_recs st) <> 0%nat /\
+  let st' := fapply2 (firstn 1 (set_effects st 1 [99])) st in
+  ~ (fl_recs st' = fl_recs st \/ fl_recs st' = set_recs st 1 [99]).
+Proof.
+  cbv zeta. split; [reflexivity|]. split; [vm_compute; discriminate|].
+  intros [H|H]; vm_compute in H; discriminate.
+Qed.
